@@ -1230,6 +1230,14 @@ class MyPyAstVisitor:
         qualified_imports: list[QualifiedImport],
         alias_name: str,
     ) -> tuple[str, str]:
+        # The name under which something was imported takes precedence: "from a import X as Y" does not bind "X"
+        for qualified_import in qualified_imports:
+            imported_as = qualified_import.alias or qualified_import.qualified_name.split(".")[-1]
+            if alias_name == imported_as:
+                qname = qualified_import.qualified_name
+                name = qname.split(".")[-1]
+                return name, qname
+
         for qualified_import in qualified_imports:
             if alias_name in {qualified_import.alias, qualified_import.qualified_name.split(".")[-1]}:
                 qname = qualified_import.qualified_name
